@@ -7,7 +7,7 @@ for d in seeded/*/; do
   n=$(basename $d); id=${n%%-*}
   base=""
   if ! git -C /repo apply --check $d/patch.diff 2>/dev/null; then
-    for b in 65b01ec 7ff9aea; do
+    for b in 5b99606 65b01ec 7ff9aea; do
       if git -C /repo worktree add -q /tmp/sv_probe $b 2>/dev/null; then
         if git -C /tmp/sv_probe apply --check /verif/$d/patch.diff 2>/dev/null; then base=$b; fi
         git -C /repo worktree remove --force /tmp/sv_probe
